@@ -36,8 +36,8 @@ pub enum Step {
         counter_b: bool,
         value: u64,
     },
-    /// The action of the entered state was put in the machine's action slot.
-    Scheduled { machine: usize },
+    /// The action of state `state` was put in the machine's action slot.
+    Scheduled { machine: usize, state: usize },
     /// The machine's action slot was emptied because its limit was reached.
     Withdrawn { machine: usize },
     /// The signal round at the end of a call starts.
